@@ -78,7 +78,10 @@ def battery(with_pinf=False, with_nan=True, min_len=1, max_len=6, limit=700):
     fixed = [[1.0], [NAN], [NINF], [3.0, 3.0], [3.0, NAN], [NAN, NAN], [1.0, 2.0], [2.0, 1.0], [1.0, 2.0, 2.0, NAN, -1e9, 5.0], [1.0, 2.0, 3.0, 3.0, 3.0],
              [0.0, 1.0, 2.0, 1e6, 1e6 + 0.001, 1e6 + 0.002, 1e6 + 0.003], [3.0, 1.0, 2.0], [5.0, 5.0, 5.0, 1.0], [1.0, 1.0, 1.0, 2.0, 3.0],
              [-1e9, 1.0, 2.0, 3.0, 4.0, 5.0], [1.0, NINF, 2.0, 0.0], [2.0, 2.0, NAN, NAN], [0.0, 0.0, 0.0], [-1.0, -1.0], [0.0], [-1.0], [4.0, 3.0, 2.0, 1.0, 0.0, -1.0],
-             [1.0, 2.0, 3.0, 4.0, 5.0, 6.0, 7.0], [10.0, 20.0, NAN, 5.0, 1.0, 2.0], [1.0, 1.0, 2.0, 2.0, 3.0, 3.0]]
+             [1.0, 2.0, 3.0, 4.0, 5.0, 6.0, 7.0], [10.0, 20.0, NAN, 5.0, 1.0, 2.0], [1.0, 1.0, 2.0, 2.0, 3.0, 3.0],
+             # more than half of the labels tied at the maximum (median == max) with smaller labels; median == max == 0
+             [1.0, 1.0, 1.0, 0.5, 0.9], [2.0, 2.0, 2.0, 2.0, 1.0], [0.0, 0.0, -0.1], [0.0, 0.0, 0.0, -1.0, -2.0], [5.0, 5.0, 5.0, 1.0, 2.0, 3.0],
+             [0.0, 0.0, -1.0], [7.0, 7.0, 3.0], [1.0, 1.0, 1.0, 0.5, 0.9, NAN]]
     if with_pinf:
         fixed += [[PINF], [1.0, PINF], [PINF, NAN, 2.0]]
     for xs in fixed:
@@ -279,7 +282,7 @@ def r_goodstd(xs, params):
     u = np.array(sorted({v for v in xs if fin(v)}), dtype=float)
     if len(u) == 0:
         return {}, 'no finite value'
-    thr = float(np.median(u)) if params.get('thr') is None else float(params['thr'])
+    thr = float(np.nanmedian(np.array([v for v in xs if fin(v)]))) if params.get('thr') is None else float(params['thr'])   # the threshold warp passes
     if not (u >= thr).any():
         return {}, 'no label >= threshold'
     before = flat(u)
@@ -348,7 +351,7 @@ def r_halfrank_unwarp(xs, params):
     kind, val = call(lambda: w.unwarp(a))
     y = validated(xs)
     c = {'raises_only_documented': _raise_clause(kind, val, xs, allowed=[('nan', any(math.isnan(v) for v in y))]), 'input_not_modified': _frame(a, before)}
-    if any(math.isnan(v) for v in y):
+    if any(math.isnan(v) for v in y) and PINF not in y:
         c['nan_rejected'] = kind == 'raise' and isinstance(val, ValueError) and 'nan' in str(val)
     if kind == 'ok':
         o = flat(val)
@@ -645,6 +648,7 @@ def falsify(job):
     with_pinf = clause in ('raises_only_documented', 'posinf_rejected') or runner in ('validate',)
     cases += battery(with_pinf=with_pinf, min_len=int(job.get('min_len', 1)), limit=int(job.get('limit', 500)))
     evaluated = 0
+    star = {}
     excl = set(job.get('exclude') or [])       # keys of recorded findings: inputs inside their witness classes are skipped (residual clause)
 
     def excluded(xs, params):
@@ -672,6 +676,12 @@ def falsify(job):
                 c, obs = fn(xs, params)
             except Exception as e:  # noqa: BLE001  (a crash of the runner itself is not a verdict)
                 return {'found': False, 'error': 'runner crashed on %r: %r' % (xs, e)}
+            if clause == '*':
+                evaluated += 1
+                for cl, v in c.items():
+                    if v is False and cl not in star:
+                        star[cl] = {'found': True, 'input': jsonable(xs), 'params': jsonable(params), 'observed': str(obs)[:600], 'clause': cl, 'runner': runner}
+                continue
             v = c.get(clause)
             if v is None:
                 continue
@@ -679,6 +689,8 @@ def falsify(job):
             if v is False:
                 return {'found': True, 'input': jsonable(xs), 'params': jsonable(params), 'observed': str(obs)[:600], 'clause': clause, 'runner': runner,
                         'evaluated': evaluated}
+    if clause == '*':
+        return {'found': bool(star), 'violated': star, 'evaluated': evaluated}
     return {'found': False, 'evaluated': evaluated, 'unsupported': None if evaluated else 'clause %r is not evaluated natively by runner %r' % (clause, runner)}
 
 
